@@ -9,6 +9,8 @@ Inductive sop :=
 | SSnap                        (* the harness reads the file's bytes *)
 | SCloseAll                    (* LState.Close: every handle still open is flushed and closed *)
 | SStdClose                    (* io.stdout:close() / io.stderr:close(): refused, nothing happens *)
+| SStdWrite                    (* io.stderr:setvbuf("full"); io.stderr:write(s): no effect on the file
+                                  (that the bytes arrive by the end of the state is checked by the harness) *)
 | SIoLines.                    (* for l in io.lines(path): all lines through a fresh handle *)
 
 Fixpoint upd_nth {A} (l : list A) (i : nat) (x : A) : list A :=
@@ -33,6 +35,7 @@ Definition isys_step (st : bytes * list ihandle) (o : sop) : bytes * list ihandl
     end
   | SSnap => (disk, hs, RBytes disk)
   | SStdClose => (disk, hs, RFail)
+  | SStdWrite => (disk, hs, RTrue)
   | SCloseAll =>
     let (d', hs') := fold_left (fun (st : bytes * list ihandle) h =>
                                   let (d, acc) := st in
@@ -64,6 +67,7 @@ Definition ssys_step (crlf : bool) (st : bytes * list shandle) (o : sop) : bytes
     end
   | SSnap => (c, hs, RBytes c)
   | SStdClose => (c, hs, RFail)
+  | SStdWrite => (c, hs, RTrue)
   | SCloseAll =>
     let (c', hs') := fold_left (fun (st : bytes * list shandle) h =>
                                   let (d, acc) := st in
@@ -114,11 +118,11 @@ Inductive lastop := LNone | LRead | LWrite.
 Definition is_LWrite (l : lastop) : bool := match l with LWrite => true | _ => false end.
 Definition is_LRead (l : lastop) : bool := match l with LRead => true | _ => false end.
 
-(* one handle: a positioning op or flush between a read and a following write, and between a
-   write and a following read (the property's wording of ISO C 7.19.5.3 §6) *)
+(* one handle: a positioning op or flush between a read and a following write (the property's
+   wording; a read after a write needs nothing: the code writes pending bytes out first) *)
 Definition disc1_step (l : lastop) (o : op) : option lastop :=
   match o with
-  | ORead _ | OLines _ | ONext _ => if is_LWrite l then None else Some LRead
+  | ORead _ | OLines _ | ONext _ => Some LRead
   | OWrite _ => if is_LRead l then None else Some LWrite
   | OSeek _ _ | OFlush => Some LNone
   | OSetvbuf _ _ => Some l
@@ -169,6 +173,7 @@ Definition disc_sys_step (ts : list trk) (o : sop) : option (list trk) :=
   | SIoLines => if forallb synced ts then Some ts else None
   | SSnap => Some ts
   | SStdClose => Some ts
+  | SStdWrite => Some ts
   | SCloseAll => Some (map (fun _ => mkT false LNone false) ts)
   | SOp i o' =>
     match nth_error ts i with
@@ -178,7 +183,7 @@ Definition disc_sys_step (ts : list trk) (o : sop) : option (list trk) :=
       if negb (t_open t) then Some ts else
       match o' with
       | ORead _ | OLines _ | ONext _ =>
-        if is_LWrite (t_last t) || t_stale t then None
+        if t_stale t then None
         else Some (upd_nth ts i (mkT true LRead false))
       | OWrite _ =>
         if is_LRead (t_last t) then None
